@@ -30,11 +30,12 @@ SUBCHECKS_THOROUGH = [("C17", []), ("C15", []), ("C05", []), ("C16", []), ("C01"
 
 
 def parse_races(text):
-    """-> list of (signature, report text).  A report is judged when both racing
-    accesses are attributed to snowflake code (first frame of the repository
-    within the 6 innermost frames of each access stack, harness files excluded);
-    reports that involve harness code or only third-party code get an
-    'external:' signature."""
+    """-> list of (signature, report text).  An access is attributed to the
+    repository when a frame of the repository (harness files excluded) is among
+    the 6 innermost frames of its stack.  A report is judged when at least one
+    access is attributed to the repository and neither access is harness code;
+    reports that involve harness code, or only library code, get an
+    'external:' signature and are noted, not judged."""
     out = []
     for rep in text.split("WARNING: DATA RACE")[1:]:
         rep = rep.split("==================")[0]
@@ -56,10 +57,12 @@ def parse_races(text):
                     pick = fn[len(MOD):] if fn.startswith(MOD) else fn
                     break
             tops.append(pick)
-        names = sorted(re.sub(r"\.(func|deferwrap)\d+(\.\d+)*$", "", t) if t else "?" for t in tops)
-        if harness or any(t is None for t in tops):
+        names = sorted(re.sub(r"\.(func|deferwrap)\d+(\.\d+)*$", "", t) if t else "(library)" for t in tops)
+        if harness or all(t is None for t in tops):
             out.append(("external:" + "|".join(names) + ("(harness)" if harness else ""), rep))
         else:
+            # at least one access is in repository code and the other is not in harness code: memory the
+            # repository shares with a library (e.g. a buffer it queued without copying) is its own business
             out.append(("race:" + "|".join(names), rep))
     return out
 
